@@ -5,6 +5,8 @@ pub mod c16;
 pub mod c17;
 pub mod c18;
 pub mod c19;
+pub mod c20;
+pub mod c20_sigs;
 pub mod cal;
 pub mod c03;
 pub mod c04;
@@ -21,6 +23,7 @@ pub mod c14;
 pub fn dispatch(prop: &str, run: &mut Run) {
     match prop {
         "CAL" => cal::run(run),
+        "C20" => c20::run(run),
         "C15" => c15::run(run),
         "C16" => c16::run(run),
         "C17" => c17::run(run),
